@@ -172,14 +172,14 @@ def junk(rng):
     return copy.deepcopy(rng.choice(JUNK))
 
 
-_TIME_ONLY = re.compile(r"^\s*\d{1,2}:\d{2}")
+_TIME_ONLY = re.compile(r"(?<![0-9T:.+-])\d{1,2}:\d{2}")
 
 
 def env_relative_value(v) -> bool:
     """Does this input legitimately make the outcome depend on clock or zone?
     (time-only text, naive temporals, aware times converted via 'today')."""
     if isinstance(v, str):
-        return bool(_TIME_ONLY.match(v)) or v.strip().startswith("T")
+        return bool(_TIME_ONLY.search(v)) or v.strip().startswith("T")
     if isinstance(v, list):
         return any(env_relative_value(x) for x in v)
     if isinstance(v, dict):
